@@ -92,15 +92,24 @@ def firstPrefTotals (p : Profile) : Votes :=
     | .one d :: _ => if d = c then acc + b.2 else acc
     | .shared cs :: _ => if cs.contains c then acc + b.2 / (cs.length : Rat) else acc) 0))
 
-/-- `eliminate_one` (sequential.py L693-697): `get_n_best(totals, #candidates - 1)`.
+/-- `get_n_best(totals, #candidates - 1)` inside `eliminate_one`.
     Python's negative indices: with no candidate `n_seats = -1` and `sorted_items[-2]` raises
     IndexError; with one candidate `n_seats = 0` gives `[]`. -/
-def eliminateOne (p : Profile) : Except Err (List Slot) :=
+def eliminateOneRaw (p : Profile) : Except Err (List Slot) :=
   let totals := firstPrefTotals p
   match totals.length with
   | 0 => .error (.other "IndexError")
   | 1 => .ok []
   | m + 2 => .ok (getNBest totals (m + 1))
+
+/-- `eliminate_one` (sequential.py): the candidates that stay after the one with the fewest first preferences is
+    eliminated; when several candidates are level for the elimination and more than one place is still to be decided
+    it refuses with the declared NotImplementedError('tie in elimination') -/
+def eliminateOne (p : Profile) : Except Err (List Slot) :=
+  match eliminateOneRaw p with
+  | .error e => .error e
+  | .ok remaining =>
+    if decide (remaining.length > 1) && remaining.any isTie then .error .notImplemented else .ok remaining
 
 /-- `Benham.get_condorcet_winner` (L723-727) -/
 def benhamCW (p : Profile) : Option Cand := (condorcetWinner (rankedToCondorcet p)).head?
@@ -136,13 +145,16 @@ def tidemanTier (smith : Bool) : Nat → Profile → Except Err Slot
   | f + 1, rv =>
     if rv.isEmpty then .error .notImplemented
     else
-      let sset := smithSchwartz (rankedToCondorcet rv) smith
+      let sset0 := smithSchwartz (rankedToCondorcet rv) smith
+      -- no pairwise contest at all: nobody is outside the set
+      let sset := if sset0.isEmpty then allRankedCandidates rv else sset0
       match sset with
       | [c] => .ok (Slot.cand c)
       | _ =>
         let rv2 := subsetProfile rv sset
         match eliminateOne rv2 with
         | .error e => .error e
+        | .ok [Slot.tie _] => .error .notImplemented      -- 'tie in the last elimination'
         | .ok [s] => .ok s
         | .ok rem => tidemanTier smith f (subsetProfile rv2 (slotCands rem))
 
